@@ -2,16 +2,23 @@
 package c19
 
 import (
-	"runtime"
-	"sync/atomic"
-
 	"github.com/welllog/golib/goz"
+	zctl "github.com/welllog/golib/zzshim/ctl"
+	atomic "github.com/welllog/golib/zzshim/satomic"
+	runtime "github.com/welllog/golib/zzshim/sruntime"
 	"vh/vx"
 )
+
+// The harness's own atomic operations, gates and Gosched calls go through the schedule-controller shims
+// (to the engine they are the operations they wrap); with the library's WaitGroup operations gated as well,
+// a schedule found by the engine is replayed natively in the recorded order.  Goroutines are created inside
+// the library, so every submitted function declares its logical id (start order) first.
 
 // Limit: limit symbolic (all values < 1 fall back to 3), m tasks that may panic; a scheduling point inside
 // every task lets the engine interleave them.
 func Limit() {
+	zctl.Enter(0)
+	nextID := 1
 	limit := vx.Int("limit")
 	vx.Assume(limit <= vx.Param("maxlimit", 2))
 	eff := limit
@@ -39,7 +46,10 @@ func Limit() {
 	ran := make([]int32, m)
 	for i := 0; i < m; i++ {
 		i := i
+		id := nextID
+		nextID++
 		l.Go(func() {
+			zctl.Enter(id)
 			c := atomic.AddInt32(&cur, 1)
 			for {
 				mx := atomic.LoadInt32(&maxSeen)
@@ -48,7 +58,7 @@ func Limit() {
 				}
 			}
 			atomic.AddInt32(&ran[i], 1)
-			vx.Gate()
+			zctl.Gate()
 			atomic.AddInt32(&cur, -1)
 			if panics[i] {
 				vx.Cover("task panicked")
@@ -72,7 +82,10 @@ func Limit() {
 	// after the panics, n functions can still be inside together: a leaked slot shows up as a deadlock here
 	var arrived int32
 	for i := 0; i < eff; i++ {
+		id := nextID
+		nextID++
 		l.Go(func() {
+			zctl.Enter(id)
 			atomic.AddInt32(&arrived, 1)
 			for atomic.LoadInt32(&arrived) < int32(eff) {
 				runtime.Gosched()
